@@ -22,7 +22,7 @@ RULE = (
     "referrers, missing reference = SigmaError at load time, resolving twice changes nothing. non-trivial = permutation in "
     "which some referrer precedes a rule it references."
 )
-RULE += (" " + 'Load paths include error-collecting variants (from_yaml, merge of separately loaded parts, load_ruleset with collect_errors=True; the first collected error stands for the raised one). Templates include references given only by an extended condition and generation asked for inside correlation chains.')
+RULE += (" " + 'merge() is given a list, a generator or an iterator of the parts. Load paths include error-collecting variants (from_yaml, merge of separately loaded parts, load_ruleset with collect_errors=True; the first collected error stands for the raised one). Templates include references given only by an extended condition and generation asked for inside correlation chains.')
 ASSUMPTIONS = ["reference for the emitted set: a rule emits iff it is unreferenced or referenced only by generating correlations (mixed: only order independence)",
                "correlation query text itself is judged by C10; here it must be identical across orders"]
 K = V.K(correlation={"typing": True})
@@ -127,7 +127,8 @@ def load(docs, path, tmpdir):
                     c.resolve_rule_references()
                 except Exception:
                     pass
-        return SigmaCollection.merge([a, b])
+        # merge() takes any iterable of collections: a list for one variant, a one-shot generator for the other
+        return SigmaCollection.merge((c for c in (a, b)) if resolved else [a, b])
     if kind in ("yaml-c", "files-c", "merge-c"):
         # error collecting variants: the collected errors stand for the exception strict loading raises
         if kind == "yaml-c":
@@ -137,7 +138,7 @@ def load(docs, path, tmpdir):
             text = lambda ds: yaml.safe_dump_all(ds, sort_keys=False)
             a = SigmaCollection.from_yaml(text(docs[:cut]), collect_errors=True, resolve_references=False)
             b = SigmaCollection.from_yaml(text(docs[cut:]), collect_errors=True, resolve_references=False)
-            coll = SigmaCollection.merge([a, b])
+            coll = SigmaCollection.merge(iter([a, b]))
         else:
             paths = []
             for i, d in enumerate(docs):
